@@ -18,7 +18,7 @@ package shell
 //   XW  valid streaming request whose process cannot be started: non-existent work_dir
 //   XI  valid interactive request whose process cannot be started (command not installed)
 //   CL  close of the oldest running session (HandleStreamClose)
-// (quick: L = 3 with the third event from {VS, VI, RIp, RIc, CL, XS}; thorough: L = 4, full alphabet)
+// (quick: L = 3, thorough: L = 4; the last event of the longest histories comes from {VS, VI, RIp, RIc, XS, CL})
 // is driven through the real code; accepted requests start real `sleep 3000` processes, which are
 // killed by CL or by Handler.Close at the end of the history (the harness waits only on the
 // processes' done channels, with a safety timeout that is a harness error, never a verdict).
@@ -328,8 +328,8 @@ func c25Handler(r *vmc.Result) {
 			return
 		}
 		for _, a := range alphabet {
-			if !r.Thorough() && len(cur) == 2 && (a == "RIa" || a == "RS" || a == "XW" || a == "XI") {
-				continue // quick tier: the third event comes from {VS, VI, RIp, RIc, XS, CL}
+			if len(cur) == maxLen-1 && maxLen >= 3 && (a == "RIa" || a == "RS" || a == "XW" || a == "XI") {
+				continue // the last event of the longest histories (quick: the third, thorough: the fourth) comes from {VS, VI, RIp, RIc, XS, CL}
 			}
 			gen(append(cur, a))
 		}
